@@ -46,6 +46,11 @@ class W:
         return 4
 
 
+def f_local(x):
+    loc = Holder.make_local()      # a local whose finalizer journals: it must run when the call returns
+    return 6
+
+
 def hidden(x):
     return 5
 
@@ -148,7 +153,7 @@ def hook_workload(sc, traced):
         elif role == "caller_local":
             obs.append(M.caller_with_local(box[0], 1))
 
-    logger = Logger()
+    logger = Logger(fail_at=range(1, 50) if sc.get("log_fails") else ())
     escaped, before = "NONE", sys.getprofile()
     path = env["path"]
     try:
@@ -199,18 +204,23 @@ def run_life_scenario(sc):
             x = T.TRaisingClass() if f == "inspect" else j
             T.ROLE[0] = "arg"
             obs.append(M.f_arg(x))
+            n0 = len(T.FINALIZED)
+            M.f_local(j)
+            obs.append("finalized:%d" % (len(T.FINALIZED) - n0))     # the callee's local is released when it returns
         if how == "exception":
             raise ProgError()
 
     def one(traced):
         T.JOURNAL.clear()
         obs, seen, escaped = [], "none", "NONE"
-        log_fail = {j + 1 for j, f in enumerate(calls) if f == "log"}
-        # a call whose inspection raised never reaches log(): indices count log() calls
+        # which log() calls fail: each model call is two traced calls (f_arg, f_local); a call whose inspection
+        # raised never reaches log() for f_arg
         idx, k = set(), 0
         for f in calls:
-            if f == "inspect":
-                continue
+            if f != "inspect":
+                k += 1
+                if f == "log":
+                    idx.add(k)
             k += 1
             if f == "log":
                 idx.add(k)
@@ -294,6 +304,8 @@ def main(pid, tier, seed, replay=None):
                 for proto in protos:
                     for k in (0, 3):
                         scs.append({"type": "hooks", "kind": kind, "role": role, "proto": proto, "k": k})
+                    if role in ("arg", "ret", "yield", "elem_list"):     # the same cell while every log() call fails
+                        scs.append({"type": "hooks", "kind": kind, "role": role, "proto": proto, "k": 0, "log_fails": True})
         plan.append({"family": "hooks: function kind x object role x protocol x k (exhaustive product)", "scenarios": len(scs)})
         n0 = len(scs)
         for b in life:
